@@ -216,6 +216,11 @@ func gsub(t *rt.Thread, c *rt.GoCont) (rt.Cont, error) {
 	}
 	if err == nil && c.NArgs() >= 4 {
 		n, err = c.IntArg(3)
+		if n < 0 {
+			// n is a maximum: no substitution at all (-1 stands for "no
+			// limit" only internally)
+			n = 0
+		}
 	}
 	if err != nil {
 		return nil, err
